@@ -659,3 +659,157 @@ pub proof fn lemma_rws_done(a: MzAut, ls: Seq<SplitterList>, p: Partition, p0: P
     }
     lemma_hop_weaken(a, ls, p, e1, no_exc());
 }
+
+// a splitter was picked (deactivated): the invariant holds with that splitter as the exception
+pub proof fn lemma_pick(a: MzAut, ls0: Seq<SplitterList>, ls1: Seq<SplitterList>, preds: Seq<BasePartition>, p: Partition, s: Splitter)
+    requires aut_ok(a), pt_wf(p), p.base.size == a.n,
+        lists_ok(a, ls0, preds, bid_of(p), p.base.block@.len() as int), hop_inv(a, ls0, p, no_exc()),
+        ls_wf(ls1), ls1.len() == ls0.len(),
+        ls_has(ls0, s.block as int, s.char, s.class, true),
+        forall|b: int, c: u32, cls: u32, act: bool| #![trigger ls_has(ls1, b, c, cls, act)]
+            ls_has(ls1, b, c, cls, act) <==> (if b == s.block && c == s.char { cls == s.class && !act } else { ls_has(ls0, b, c, cls, act) }),
+    ensures lists_ok(a, ls1, preds, bid_of(p), p.base.block@.len() as int),
+        hop_inv(a, ls1, p, exc_of(a, p, s.block, s.char)),
+        ls_has(ls1, s.block as int, s.char, s.class, false),
+        s.char < a.m,
+{
+    let bd = bid_of(p);
+    let nb = p.base.block@.len() as int;
+    assert(s.char < a.m);
+    assert forall|b: int, c: u32, cls: u32, act: bool| #[trigger] ls_has(ls1, b, c, cls, act) implies ls_has(ls0, b, c, cls, act) || ls_has(ls0, b, c, cls, !act) by {}
+    assert forall|c: u32| c < a.m implies #[trigger] entries_ok(a, ls1, preds[c as int], bd, nb, c) by {
+        assert(entries_ok(a, ls0, preds[c as int], bd, nb, c));
+        assert forall|b: int, cls: u32, act: bool| #[trigger] ls_has(ls1, b, c, cls, act) implies
+            1 <= b < nb && 1 <= cls < preds[c as int].block@.len() && class_is(a, preds[c as int], cls as int, bd, b, c) by {
+            assert(ls_has(ls0, b, c, cls, act) || ls_has(ls0, b, c, cls, !act));
+        }
+    }
+    assert forall|c: u32| c < a.m implies #[trigger] complete_for(a, ls1, bd, c) by {
+        assert(complete_for(a, ls0, bd, c));
+        assert forall|x: u32| x < a.n implies #[trigger] ls_entry(ls1, bd((a.d)(x, c)) as int, c) by {
+            let b = bd((a.d)(x, c)) as int;
+            assert(ls_entry(ls0, b, c));
+            let (k, ac) = choose|k: u32, ac: bool| #[trigger] ls_has(ls0, b, c, k, ac);
+            if b == s.block && c == s.char { assert(ls_has(ls1, b, c, s.class, false)); } else { assert(ls_has(ls1, b, c, k, ac)); }
+        }
+    }
+    assert forall|b: int, c: u32, cls: u32, act: bool| #[trigger] ls_has(ls1, b, c, cls, act) implies c < a.m by {
+        assert(ls_has(ls0, b, c, cls, act) || ls_has(ls0, b, c, cls, !act));
+    }
+    let exc = exc_of(a, p, s.block, s.char);
+    assert forall|x: u32, y: u32, c: u32| x < a.n && y < a.n && c < a.m && same_blk(p, x, y) implies #[trigger] hop_pair(a, ls1, p, exc, x, y, c) by {
+        assert(hop_pair(a, ls0, p, no_exc(), x, y, c));
+        let bx = pt_bid(p, (a.d)(x, c)); let by_ = pt_bid(p, (a.d)(y, c));
+        if bx != by_ {
+            if ls_act(ls0, bx as int, c) {
+                if bx == s.block && c == s.char { assert(exc(x, y, c)); }
+                else { let k = choose|k: u32| #[trigger] ls_has(ls0, bx as int, c, k, true); assert(ls_has(ls1, bx as int, c, k, true)); }
+            } else {
+                assert(ls_act(ls0, by_ as int, c));
+                if by_ == s.block && c == s.char { assert(exc(x, y, c)); }
+                else { let k = choose|k: u32| #[trigger] ls_has(ls0, by_ as int, c, k, true); assert(ls_has(ls1, by_ as int, c, k, true)); }
+            }
+        }
+    }
+}
+
+// no active splitter left: the partition is a congruence
+pub proof fn lemma_no_active(a: MzAut, ls: Seq<SplitterList>, p: Partition)
+    requires hop_inv(a, ls, p, no_exc()), forall|b: int, c: u32| !ls_act(ls, b, c),
+    ensures congruence(a, p),
+{
+    assert forall|x: u32, y: u32, c: u32| x < a.n && y < a.n && c < a.m && same_blk(p, x, y) implies #[trigger] step_same(a, p, x, y, c) by {
+        assert(hop_pair(a, ls, p, no_exc(), x, y, c));
+    }
+}
+
+// as many blocks as states: every block is a singleton
+pub proof fn lemma_all_singletons(a: MzAut, p: Partition)
+    requires aut_ok(a), pt_wf(p), p.base.size == a.n, p.base.block@.len() - 1 >= a.n,
+    ensures forall|x: u32, y: u32| x < a.n && y < a.n && #[trigger] same_blk(p, x, y) ==> x == y,
+{
+    assert forall|x: u32, y: u32| x < a.n && y < a.n && #[trigger] same_blk(p, x, y) implies x == y by {
+        if x != y {
+            lemma_pt_two(p, x, y);
+            // n + 1 distinct positions below n: the starts of the n blocks and one more position inside block of x
+            let bx = pt_bid(p, x) as int;
+            let nb = p.base.block@.len() as int;
+            let q = Seq::new((nb - 1 + 1) as nat, |k: int| if k < nb - 1 { p.base.block@[k + 1].start as int } else { p.base.block@[bx].start as int + 1 });
+            assert forall|k: int| 0 <= k < q.len() implies 0 <= #[trigger] q[k] < a.n by {
+                if k < nb - 1 { let h = p.base.block@[k + 1]; assert(h.start < h.end && h.end <= p.base.size); }
+                else { let h = p.base.block@[bx]; assert(h.end <= p.base.size); }
+            }
+            assert forall|k1: int, k2: int| 0 <= k1 < q.len() && 0 <= k2 < q.len() && k1 != k2 implies q[k1] != q[k2] by {
+                let h = p.base.block@[bx];
+                if k1 < nb - 1 && k2 < nb - 1 { assert(bh_disjoint(p.base.block@[k1 + 1], p.base.block@[k2 + 1])); }
+                else if k1 < nb - 1 { if k1 + 1 != bx { assert(bh_disjoint(p.base.block@[k1 + 1], p.base.block@[bx])); } }
+                else if k2 < nb - 1 { if k2 + 1 != bx { assert(bh_disjoint(p.base.block@[k2 + 1], p.base.block@[bx])); } }
+            }
+            lemma_pigeon(q, a.n as int);
+        }
+    }
+}
+
+pub proof fn lemma_singletons_cong(a: MzAut, p: Partition)
+    requires forall|x: u32, y: u32| x < a.n && y < a.n && #[trigger] same_blk(p, x, y) ==> x == y,
+    ensures congruence(a, p),
+{
+    assert forall|x: u32, y: u32, c: u32| x < a.n && y < a.n && c < a.m && same_blk(p, x, y) implies #[trigger] step_same(a, p, x, y, c) by {}
+}
+
+// the state Minimizer::new builds before init_main_partition satisfies the invariant
+pub proof fn lemma_new_inv(a: MzAut, ls: Seq<SplitterList>, preds: Seq<BasePartition>, p: Partition)
+    requires aut_ok(a), pt_wf(p), p.base.size == a.n, p.base.block@.len() == 2,
+        forall|x: u32| x < a.n ==> pt_bid(p, x) == 1,
+        preds.len() == a.m,
+        forall|c: int| 0 <= c < a.m ==> bp_wf(#[trigger] preds[c]) && preds[c].size == a.n && preds[c].block@.len() == 2
+            && preds[c].block@[1].start == 0 && preds[c].block@[1].end == a.n && (forall|k: int| 0 <= k < a.n ==> preds[c].segment@[k] == k),
+        ls.len() == 2, sl_empty(ls[0]), sl_wf(ls[1]), sl_uniq(ls[1]),
+        forall|c: u32, cls: u32, act: bool| sl_has(ls[1], c, cls, act) <==> (c < a.m && cls == 1 && !act),
+    ensures lists_ok(a, ls, preds, bid_of(p), 2), hop_inv(a, ls, p, no_exc()), keeps_nerode(a, p),
+{
+    let bd = bid_of(p);
+    assert forall|b: int, c: u32, cls: u32, act: bool| #[trigger] ls_has(ls, b, c, cls, act) implies b == 1 && c < a.m && cls == 1 && !act by {
+        if b == 0 { let k = choose|k: int| #[trigger] sl_at(ls[0], k, c, cls, act); }
+    }
+    assert forall|c: u32| c < a.m implies #[trigger] entries_ok(a, ls, preds[c as int], bd, 2, c) by {
+        let pc = preds[c as int];
+        assert forall|b: int, cls: u32, act: bool| #[trigger] ls_has(ls, b, c, cls, act) implies
+            1 <= b < 2 && 1 <= cls < pc.block@.len() && class_is(a, pc, cls as int, bd, b, c) by {
+            assert forall|x: u32| #[trigger] bp_in(pc, 1, x) <==> (x < a.n && bd((a.d)(x, c)) == 1) by {
+                if bp_in(pc, 1, x) { let k = choose|k: int| bh_in(pc.block@[1], k) && #[trigger] pc.segment@[k] == x; }
+                if x < a.n { assert(bh_in(pc.block@[1], x as int)); assert(pc.segment@[x as int] == x); assert((a.d)(x, c) < a.n); }
+            }
+        }
+    }
+    assert forall|c: u32| c < a.m implies #[trigger] complete_for(a, ls, bd, c) by {
+        assert forall|x: u32| x < a.n implies #[trigger] ls_entry(ls, bd((a.d)(x, c)) as int, c) by {
+            assert((a.d)(x, c) < a.n);
+            assert(sl_has(ls[1], c, 1, false));
+            assert(ls_has(ls, 1, c, 1, false));
+        }
+    }
+    assert(ls_wf(ls)) by {
+        assert forall|b: int| 0 <= b < ls.len() implies sl_wf(#[trigger] ls[b]) && sl_uniq(ls[b]) by {}
+    }
+    assert forall|x: u32, y: u32, c: u32| x < a.n && y < a.n && c < a.m && same_blk(p, x, y) implies #[trigger] hop_pair(a, ls, p, no_exc(), x, y, c) by {
+        assert((a.d)(x, c) < a.n && (a.d)(y, c) < a.n);
+    }
+}
+
+// a block split by finality keeps equivalent states together
+pub proof fn lemma_keeps_nerode_fin(a: MzAut, p0: Partition, p1: Partition, j: u32)
+    requires aut_ok(a), keeps_nerode(a, p0), p0.base.size == a.n, j != 1,
+        forall|x: u32| x < a.n ==> (#[trigger] pt_bid(p1, x) == 1 && (a.fin)(x)) || (pt_bid(p1, x) == j && !(a.fin)(x)),
+    ensures keeps_nerode(a, p1), refines_fin(a, p1),
+{
+    assert forall|x: u32, y: u32| x < a.n && y < a.n && #[trigger] nerode(a, x, y) implies same_blk(p1, x, y) by {
+        lemma_nerode_fin(a, x, y);
+        assert((pt_bid(p1, x) == 1 && (a.fin)(x)) || (pt_bid(p1, x) == j && !(a.fin)(x)));
+        assert((pt_bid(p1, y) == 1 && (a.fin)(y)) || (pt_bid(p1, y) == j && !(a.fin)(y)));
+    }
+    assert forall|x: u32, y: u32| x < a.n && y < a.n && #[trigger] same_blk(p1, x, y) implies (a.fin)(x) == (a.fin)(y) by {
+        assert((pt_bid(p1, x) == 1 && (a.fin)(x)) || (pt_bid(p1, x) == j && !(a.fin)(x)));
+        assert((pt_bid(p1, y) == 1 && (a.fin)(y)) || (pt_bid(p1, y) == j && !(a.fin)(y)));
+    }
+}
